@@ -7,7 +7,7 @@
 From Coq Require Import List Arith Bool.
 Import ListNotations.
 
-(* IAbandon: `AbandonOperator` (commit 131551599): finalize an operator upstream of an exhausted one
+(* IAbandon: `AbandonOperator` (commits 131551599, c83fc4e4d): finalize an operator upstream of an exhausted one
    without draining it. *)
 Inductive instr := IExec (op : nat) (is_start : bool) | IFin (op : nat) | IAbandon (op : nat).
 
@@ -61,14 +61,16 @@ Definition pop_next (s : stack) (p : poll) : stack * control * call :=
           if is_last s op then (with_instrs s [], Error ELastExhausted, CExec op)
           else
             (* push Fin(op+1); push Abandon j for j in (ntf..op).rev() (lowest j ends on top);
-               ntf = max(ntf, op); push Exec(op+1) on top *)
-            (with_both s (IExec (S op) false :: map IAbandon (seq (ntf s) (op - ntf s)) ++ [IFin (S op)])
-                       (Nat.max (ntf s) op), Continue, CExec op)
+               push Exec(op+1) on top.  Since commit c83fc4e4d next_to_finalize is NOT advanced here:
+               it advances only when a finalize actually completed, so a later Exhausted that clears
+               these instructions re-creates them (and then also abandons `op` itself). *)
+            (with_instrs s (IExec (S op) false :: map IAbandon (seq (ntf s) (op - ntf s)) ++ [IFin (S op)]),
+             Continue, CExec op)
       end
   | IAbandon op :: rest =>
       match on_fin p with
       | RErr => (with_instrs s rest, Error EOperator, CFin op)
-      | ROk FFinalized | ROk FNeedsDrain => (with_instrs s rest, Continue, CFin op)
+      | ROk FFinalized | ROk FNeedsDrain => (with_both s rest (Nat.max (ntf s) (S op)), Continue, CFin op)
       | ROk FPending => (with_instrs s (IAbandon op :: rest), Pending, CFin op)
       end
   | IFin op :: rest =>
